@@ -1107,8 +1107,18 @@ C19_End(c, g) ==
                         <<[a \in Addrs |-> g[a].pos]>> >> >>, 1)
 
 -----------------------------------------------------------------------------
+(* C02 in live sessions: every packet handed to transport.write() is, byte for byte, a packet of the strict reference *)
+(* grammar for the protocol level in force (the well-formedness part of C18's stream automaton; the order of the      *)
+(* stream is C18's own subject).                                                                                     *)
+C02s_Step(c, c2, g, ln) ==
+  LET r == C18_Step(c, c2, g, ln) IN
+  IF r.err \in {"C18.malformed_packet", "C18.broker_only_type", "C18.incomplete_packet_at_loss"}
+  THEN [r EXCEPT !.err = "C02.session_bytes_not_as_prescribed"]
+  ELSE [r EXCEPT !.err = "", !.info = <<>>]
+
+-----------------------------------------------------------------------------
 (* engine *)
-Gh0 == CASE Prop = "C18" -> C18_0 [] Prop = "C14" -> C14_0 [] Prop = "C04" -> C04_0 [] Prop = "C05" -> C05_0 [] Prop = "C10" -> C10_0 [] Prop = "C13" -> C13_0 [] Prop = "C06" -> C06_0 [] Prop = "C07" -> C07_0 [] Prop = "C11" -> C11_0 [] Prop = "C15" -> C15_0 [] Prop = "C16" -> C16_0 [] Prop = "C20" -> C20_0 [] Prop = "C03" -> C03_0 [] Prop = "C19" -> C19_0 [] OTHER -> <<>>
+Gh0 == CASE Prop \in {"C18", "C02"} -> C18_0 [] Prop = "C14" -> C14_0 [] Prop = "C04" -> C04_0 [] Prop = "C05" -> C05_0 [] Prop = "C10" -> C10_0 [] Prop = "C13" -> C13_0 [] Prop = "C06" -> C06_0 [] Prop = "C07" -> C07_0 [] Prop = "C11" -> C11_0 [] Prop = "C15" -> C15_0 [] Prop = "C16" -> C16_0 [] Prop = "C20" -> C20_0 [] Prop = "C03" -> C03_0 [] Prop = "C19" -> C19_0 [] OTHER -> <<>>
 PropStep(c, c2, g, ln) ==
   CASE Prop = "C18" -> C18_Step(c, c2, g, ln) [] Prop = "C14" -> C14x_Step(c, c2, g, ln)
     [] Prop = "C04" -> C04_Step(c, c2, g, ln) [] Prop = "C05" -> C05_Step(c, c2, g, ln)
@@ -1118,6 +1128,7 @@ PropStep(c, c2, g, ln) ==
     [] Prop = "C03" -> C03_Step(c, c2, g, ln) [] Prop = "C19" -> C19_Step(c, c2, g, ln)
     [] Prop = "C13" -> C13_Step(c, c2, g, ln) [] Prop = "C08" -> C08_Step(c, c2, g, ln)
     [] Prop = "C10" -> C10_Step(c, c2, g, ln) [] Prop = "C09" -> C09_Step(c, c2, g, ln) [] Prop = "C17" -> C17_Step(c, c2, g, ln)
+    [] Prop = "C02" -> C02s_Step(c, c2, g, ln)
     [] OTHER -> OKr(g)
 PropEnd(c, g) ==
   CASE Prop = "C18" -> C18_End(c, g) [] Prop = "C14" -> C14_End(c, g) [] Prop = "C04" -> C04_End(c, g) [] Prop = "C05" -> C05_End(c, g)
